@@ -453,7 +453,8 @@ impl MixedColBuffer {
                 RawVal::Str(s) => string_col.push(&s),
                 RawVal::Int(i) => string_col.push(&i.to_string()),
                 RawVal::Float(f) => string_col.push(&f.to_string()),
-                RawVal::Null => {}
+                // placeholder, the row is marked absent in `present`
+                RawVal::Null => string_col.push(""),
             }
         }
         string_col.finalize(name, present)
